@@ -451,10 +451,15 @@ fn judge_decoder(obs: &mut Obs, entry: &str, rules: &[&str], alg_ok: bool, outco
     }
     match outcome {
       Dec::RejectedAtDecode(_) => {}
+      // With an alg in the protected header the (accept-all) verifier is reached, so a refusal by `verify` is the
+      // library's own refusal of the headers: the token is rejected, one call later.
+      Dec::RejectedAtVerify(_) if alg_ok => obs.label(format!("{entry}:rejected-by-verify")),
+      // Without it `verify` fails anyway (no algorithm to verify with): the refusal proves nothing about the rule.
       Dec::RejectedAtVerify(e) => vfail!(
         obs,
         format!("{entry}-late-reject-{}", rules_text(rules)),
-        "{entry} decoded {desc} (violating [{}]) into a validation item; only verify refused: {e}",
+        "{entry} decoded {desc} (violating [{}]) into a validation item; only verify refused, as it does for every \
+         header set without protected alg: {e}",
         rules_text(rules)
       ),
       Dec::Accepted { claims } => vfail!(
